@@ -53,7 +53,8 @@ def gen_ops(rng, big=False, dlci_pool=None, full_dlci=False, p_over=0.12):
     if full_dlci:
         pool = sorted(set(pool + [rng.randrange(129) for _ in range(3)] + [0, 125, 126, 127, 128][:rng.randint(0, 5)]))
     handlers = [d for d in pool if rng.random() < 0.75]
-    ops = [("H", d) for d in handlers]
+    ops = [("LATEINIT",)] if rng.random() < 0.12 else []
+    ops += [("H", d) for d in handlers]
     if rng.random() < 0.1:
         ops.append(("H", rng.choice(handlers + [128, 129, 200])))   # refused registration
     nmsg = rng.randint(1, 6)
@@ -72,6 +73,24 @@ def gen_ops(rng, big=False, dlci_pool=None, full_dlci=False, p_over=0.12):
             body = [rng.choice([x for x in range(256) if x not in (0x7e, 0x7d)]) for _ in range(n)] \
                 if fill < 0.5 else [rng.choice([0x41, 0x00, 0x04])] * n
             ops.append(("O", rng.choice([4, 5, 10, 0x41]), body))
+    unreg = [d for d in range(129) if d not in handlers and d not in (128, 0x7d, 0x7e)]   # raw frames: address not escaped
+    rawok = [d for d in handlers if d not in (0x7d, 0x7e)]
+    if rawok and rng.random() < 0.2:
+        # a frame nobody claims (no handler for its DLCI) directly in front of frames whose handling
+        # depends on a fresh receive buffer: lengths around the buffer size, the echo DLCI
+        plain = [x for x in range(256) if x not in (0x7e, 0x7d)]
+        for _ in range(rng.randint(1, 2)):
+            ops.append(("O", rng.choice(unreg), [rng.choice(plain) for _ in range(rng.choice([0, 1, 5, 40]))]))
+            nxt = rng.random()
+            if nxt < 0.6:
+                n = RXSIZE + rng.randint(0, 6)
+                ops.append(("O", rng.choice(rawok), [rng.choice(plain) for _ in range(n)]))
+            elif nxt < 0.8:
+                ops.append(("O", 128, [rng.choice(plain) for _ in range(rng.randint(0, 6))]))
+                ops.append(("L", rng.randint(8, 30)))
+            else:
+                ops.append(("S", rng.choice(handlers), rand_payload(rng, 30)))
+                ops.append(("L", rng.randint(5, 80)))
     ops.append(("DRAIN",))
     return ops
 
@@ -93,7 +112,13 @@ def run_trace(exe, tid, ops):
     frame boundary first (the driver reports -1 / closing flags, but it is
     simpler and exact to track it here from the pulled octets)."""
     import subprocess
-    p = subprocess.Popen([exe], stdin=subprocess.PIPE, stdout=subprocess.PIPE, stderr=subprocess.PIPE,
+    # "LATEINIT" first: callbacks are registered before the first sercomm_init()
+    late = bool(ops) and ops[0][0] == "LATEINIT"
+    if late:
+        ops = ops[1:]
+        # (the echo DLCI is claimed by sercomm_init() itself: who wins when it is registered first is not C06's business)
+        ops = [o for o in ops if o[0] == "H" and o[1] != 128] + [("I",)] + [o for o in ops if o[0] != "H"]
+    p = subprocess.Popen([exe] + (["lateinit"] if late else []), stdin=subprocess.PIPE, stdout=subprocess.PIPE, stderr=subprocess.PIPE,
                          text=True, env=dict(os.environ, ASAN_OPTIONS="detect_leaks=0:exitcode=99",
                                              UBSAN_OPTIONS="halt_on_error=1:exitcode=98"))
     ev = []
@@ -141,8 +166,12 @@ def run_trace(exe, tid, ops):
 
     try:
         for op in ops:
-            if op[0] == "H":
+            if op[0] == "I":
+                call("I")
+            elif op[0] == "H":
                 r = call("H %d" % op[1])
+                if late and r["rc"] != 0:
+                    continue        # refusing a registration before initialisation is not judged
                 ev.append(dict(e="reg", dlci=op[1], rc=0 if r["rc"] == 0 else 1))
             elif op[0] == "S":
                 call("S %d %s" % (op[1], hexs(op[2])))
@@ -158,7 +187,7 @@ def run_trace(exe, tid, ops):
             elif op[0] == "O":
                 to_boundary()
                 frame = [0x7e, op[1], 3] + list(op[2]) + [0x7e]
-                ev.append(dict(e="over", dlci=op[1], body=list(op[2])))
+                ev.append(dict(e="over" if len(op[2]) >= RXSIZE else "foreign", dlci=op[1], body=list(op[2])))
                 r = call("R " + hexs(frame))
                 for ch, (rc, dl) in zip(frame, r["res"]):
                     ev.append(dict(e="rx", why="inj", ch=ch, rc=rc, dlv=dl))
@@ -194,6 +223,8 @@ def ops_from_sim(states):
             ops.append(("N", [o[1]]))
         elif o[0] == "O":
             ops.append(("O", o[1], [o[2]] * (RXSIZE + o[3])))
+        elif o[0] == "F":
+            ops.append(("O", o[1], list(o[2])))
     ops.append(("DRAIN",))
     return ops
 
@@ -233,7 +264,8 @@ def run(ctx):
     # ---- MC ------------------------------------------------------------
     mc_jobs = [(ctx.pick("MC_SercommQ.cfg", "MC_Sercomm.cfg"), "payload<=2, 2 msgs, 1 over-long frame"),
                ("MC_SercommNoise.cfg", "garbage anywhere between frames, also after an over-long frame"),
-               ("MC_SercommDlci.cfg", "DLCIs whose address octet needs escaping (0, 0x7d, 0x7e)")]
+               ("MC_SercommDlci.cfg", "DLCIs whose address octet needs escaping (0, 0x7d, 0x7e)"),
+               ("MC_SercommForeign.cfg", "frames for an unclaimed DLCI and over-long frames in any order around two messages")]
     if ctx.thorough:
         mc_jobs.append(("MC_Sercomm3.cfg", "3 msgs, priorities"))
     for cfg, what in mc_jobs:
